@@ -3,6 +3,7 @@ package main
 import (
 	"fmt"
 
+	"github.com/nspcc-dev/neo-go/pkg/core/transaction"
 	"github.com/nspcc-dev/neo-go/pkg/neotest"
 	"math/big"
 
@@ -331,6 +332,11 @@ func (g *genCtx) genCall(signers []util.Uint160, by *util.Uint160, depth int) *c
 		c := &call{kind: kLock, src: src, till: height + uint32(r.Range(0, 8))}
 		if d := g.st.deps[src]; d != nil {
 			c.till = d.till + uint32(r.Range(0, 4)) - 1
+			if r.Chance(1, 3) {
+				// the boundary of "not in the block being persisted": height+1 is refused, height+2 accepted
+				// (decisive for an expired deposit, whose own till does not stand in the way)
+				c.till = height + 1 + uint32(r.Intn(2))
+			}
 		}
 		return c
 	case 9: // withdraw
@@ -393,9 +399,44 @@ func callFee(c *call) int64 {
 	return f
 }
 
+// randScope: Global mostly; CalledByEntry, None (fee only), CustomContracts over the natives, and the
+// combination of the two.
+func (w *world) randScope() (sigScope, bool) {
+	r := w.r
+	natives := []util.Uint160{w.neoH, w.gasH, w.notaryH, w.policyH}
+	pick := func() []util.Uint160 {
+		var a []util.Uint160
+		for _, h := range natives {
+			if r.Chance(1, 2) {
+				a = append(a, h)
+			}
+		}
+		if len(a) == 0 {
+			a = append(a, natives[r.Intn(len(natives))])
+		}
+		return a
+	}
+	switch r.Weighted([]int{72, 12, 5, 7, 4}) {
+	case 1:
+		return sigScope{scopes: transaction.CalledByEntry}, true
+	case 2:
+		return sigScope{scopes: transaction.None}, true
+	case 3:
+		return sigScope{scopes: transaction.CustomContracts, allowed: pick()}, true
+	case 4:
+		return sigScope{scopes: transaction.CalledByEntry | transaction.CustomContracts, allowed: pick()}, true
+	}
+	return sigScope{}, false
+}
+
 func (g *genCtx) genTx() *txSpec {
 	w, r := g.w, g.w.r
-	all := w.signable()
+	var all []util.Uint160
+	for _, h := range w.signable() {
+		if !g.st.blocked[h] { // a blocked signer makes the transaction invalid (Policy.CheckPolicy)
+			all = append(all, h)
+		}
+	}
 	n := 1 + r.Intn(2)
 	var signers []util.Uint160
 	if r.Chance(1, 4) { // somebody with a deposit
@@ -421,19 +462,36 @@ func (g *genCtx) genTx() *txSpec {
 	sys := int64(2 * gasUnit)
 	// now and then a committee operation (only when the committee cannot change before the
 	// transaction runs, i.e. the next block does not start an epoch)
-	if r.Chance(1, 20) && (w.bc.BlockHeight()+1)%uint32(w.C) != 0 {
-		com := w.committeeSigner()
+	if r.Chance(1, 14) {
+		// the committee that will be in office when the transaction runs: the next block may start an epoch
+		com := w.committeeSignerAt(g.st)
 		w.signer[com.ScriptHash()] = com
 		if r.Chance(4, 5) {
 			signers = append(signers, com.ScriptHash())
 		}
 		var c *call
-		if r.Bool() {
+		switch r.Weighted([]int{3, 3, 5, 3}) {
+		case 0:
 			vals := []int64{0, 1 * gasUnit, 3 * gasUnit, 5 * gasUnit, 10 * gasUnit, 10*gasUnit + 1, -1, 123456789}
 			c = &call{kind: kSetGpb, amt: big.NewInt(vals[r.Intn(len(vals))])}
-		} else {
+		case 1:
 			vals := []int64{10 * gasUnit, 500 * gasUnit, 1000 * gasUnit, 0, 77 * gasUnit}
 			c = &call{kind: kSetRegPrice, amt: big.NewInt(vals[r.Intn(len(vals))])}
+		case 2:
+			// block a candidate's account (it drops out of the election and its votes are revoked), now and then
+			// a user, a native contract (refused) or an account that is blocked already
+			c = &call{kind: kBlock, src: w.cands[r.Intn(len(w.cands))].GetScriptHash()}
+			switch r.Intn(10) {
+			case 0:
+				c.src = w.users[r.Intn(len(w.users))].ScriptHash()
+			case 1:
+				c.src = []util.Uint160{w.notaryH, w.neoH, w.gasH, w.policyH, w.treasuryH}[r.Intn(5)]
+			}
+		default:
+			c = &call{kind: kUnblock, src: w.cands[r.Intn(len(w.cands))].GetScriptHash()}
+			if bl := w.sortedBlocked(g.st); len(bl) > 0 && r.Chance(2, 3) {
+				c.src = bl[r.Intn(len(bl))]
+			}
 		}
 		s.calls = append(s.calls, c)
 		sys += gasUnit
@@ -472,6 +530,14 @@ func (g *genCtx) genTx() *txSpec {
 	}
 	g.spent[signers[0]] += need
 	s.signers = signers
+	for _, h := range signers {
+		if sc, ok := w.randScope(); ok {
+			if s.scope == nil {
+				s.scope = map[util.Uint160]sigScope{}
+			}
+			s.scope[h] = sc
+		}
+	}
 	// the NotaryAssisted attribute on an ordinary (single-signer, multisig excluded) transaction
 	if _, single := w.signer[signers[0]].(neotest.SingleSigner); single && len(signers) == 1 &&
 		w.bc.BlockHeight()+1 >= w.notaryFrom && r.Chance(1, 12) {
@@ -490,7 +556,7 @@ func (g *genCtx) genNotaryTx() *txSpec {
 	for i := range w.users {
 		h := w.users[(start+i)%len(w.users)].ScriptHash()
 		d := g.st.deps[h]
-		if d == nil {
+		if d == nil || g.st.blocked[h] {
 			continue
 		}
 		sys := int64(gasUnit / 2)
